@@ -139,7 +139,7 @@ func (r *Result) sample(kind string, s any) {
 // partial result is written and the process exits (a spinning goroutine cannot be stopped).
 
 const (
-	cpuLimit  = 1500 * time.Millisecond
+	cpuLimit  = 3 * time.Second
 	wallLimit = 90 * time.Second
 )
 
@@ -291,7 +291,8 @@ func (u *unitCtx) eval(c *caseIn) {
 	if c.honest {
 		mutClass = "honest"
 	}
-	hclass := mutClass + "|" + rel + "|" + nodeHex
+	// budget class of a case: a class that has hung hangCap times is not evaluated again
+	hclass := mutClass + "|" + c.mutDesc + "|" + rel + "|" + nodeHex
 	if u.skip[hclass] {
 		u.res.SkippedHang++
 		return
@@ -622,7 +623,7 @@ func serveWorker() {
 // ---------------------------------------------------------------------------------------
 // parent side: a pool of one-job child processes with continuation after a hang
 
-const hangCap = 2 // a hang class is evaluated until it has hung this many times, then skipped (and counted)
+const hangCap = 1 // a hang class is evaluated until it has hung this many times, then skipped (and counted)
 
 type pool struct {
 	mu       sync.Mutex
@@ -876,7 +877,7 @@ func main() {
 		"SHA-256 does not collide on the inputs used; user keys of one universe have pairwise different leaf positions (truncated hashes), so a reduced-width tree is not confused by two keys sharing a leaf",
 		"the adversary is bounded to proofs derived from an honest proof by the listed malformations, and to claims over the stated key universe",
 		"small trees are committed through the exported SMT.Commit (sequential path) by building its unexported operation type through a layout-checked mirror struct; the parallel path is exercised only at production width through store.Store",
-		"a call that uses more than 1.5 s of process CPU (normal: about 1 ms) is taken as non-terminating",
+		"a call that uses more than 3 s of process CPU (normal: about 1 ms) is taken as non-terminating",
 		"pebble's in-memory FS behaves like the on-disk one",
 	}
 	if r.Replay != "" {
